@@ -72,6 +72,7 @@ def contract_for_property(c, pid):
 
 
 _JOBS = {}
+_REGISTRY = {}  # qualname -> contract, for modular calls (callers see the contracts of callees marked `modular`)
 
 
 def worker(job):
@@ -82,7 +83,7 @@ def worker(job):
     try:
         from pyvc import verify, replay, core, source
 
-        rep = verify.verify_function(qualname, c, schema, timeout_ms=TIERS[tier]["timeout_ms"], only=only)
+        rep = verify.verify_function(qualname, c, schema, timeout_ms=TIERS[tier]["timeout_ms"], only=only, contracts=_REGISTRY)
         out["paths"] = rep.paths
         out["src_hash"] = rep.src_hash
         out["unsupported"] = rep.unsupported
@@ -254,6 +255,7 @@ def main(argv=None):
     if args.replay:
         return do_replay(args.replay)
     reg, schemas, extras = load_registry()
+    _REGISTRY.update(reg)
     jobs = []
     for q, c in sorted(reg.items()):
         c2 = contract_for_property(c, pid)
@@ -331,6 +333,7 @@ def report(pid, tier, seed, results, lemma_res, extra_results, checker_errors, t
         all_obs.append(dict(ob))
     per_fn_count = {}
     dead_paths = {}
+    maybe_dead = {}
     bounded = []
     for ob in all_obs:
         if ob.get("kind") == "bounded":
@@ -369,8 +372,17 @@ def report(pid, tier, seed, results, lemma_res, extra_results, checker_errors, t
             # It is an error only if a function has no live path at all (then every obligation would hold vacuously).
             dead_paths.setdefault(ob.get("function"), []).append(ob["name"])
             discharged += 1
+        elif ob.get("kind") == "cover" and st == "unknown":
+            # the solver could not tell whether this path is live or dead; either is acceptable for one path (its other
+            # obligations are decided on their own) as long as the function has a path that is proved live -- checked below
+            maybe_dead.setdefault(ob.get("function"), []).append(ob["name"])
+            discharged += 1
         else:
             undecided.append(ob)
+    for fn, names in maybe_dead.items():
+        live = [o for o in all_obs if o.get("function") == fn and o.get("kind") == "cover" and o["status"] == "proved"]
+        if not live:
+            undecided.append(dict(function=fn, name=names[0], kind="cover", status="unknown", note="no path of the function could be shown live"))
     for r in results:
         if not r["error"] and not r["unsupported"] and per_fn_count.get(r["function"], 0) == 0:
             checker_errors.append("%s: zero obligations generated" % r["function"])
@@ -436,6 +448,7 @@ def report(pid, tier, seed, results, lemma_res, extra_results, checker_errors, t
             solver_seconds=round(solver_s, 2),
             known_findings_reported=[f.get("what") for f, _ in known_hit],
             dead_paths=dead_paths,
+            path_liveness_undecided=maybe_dead,
             bounded_stand_ins=bounded,
             undecided=[dict(function=u.get("function"), name=u["name"], status=u["status"]) for u in undecided],
             refuted=[dict(function=o.get("function"), name=o["name"], replay_verdict=(o.get("replay") or {}).get("verdict")) for o in violations],
@@ -481,6 +494,7 @@ def do_replay(path):
         print(json.dumps(rp, indent=1)[:2000])
         return 0
     reg, schemas, extras = load_registry()
+    _REGISTRY.update(reg)
     c = reg[doc["function"]]
     res = replay.run_replay(desc, c, doc["obligation"].split("/")[0] if doc.get("kind") == "post" else None)
     print(json.dumps(replay.jsonable({k: v for k, v in res.items() if k != "prestate"}), indent=1))
